@@ -5,6 +5,7 @@ CONSTANTS
   Conts <- cConts
   MaxList = 2
   MaxNodes = 5
+  PairNodes = 0
   UpdKeys = {"a", "b"}
   PathNames = {"a", "b", "*"}
   MaxPath = 3
